@@ -317,6 +317,57 @@ class ArmLoopGen:
 
 
 # ---------------------------------------------------------------------------
+# S2-seqloop: a loop that can be left in up to four ways (exhaustion, break, two returns), FOLLOWED by code that
+# branches again (a second loop with an early exit, an early return in a nested if): multi-way synthetic branches whose
+# arms contain further synthetic branches
+
+
+class SeqLoopGen:
+    GUARDS = ArmLoopGen.GUARDS
+    AFTER = ["second-loop-early-return", "second-loop-break", "nested-if-return", "if-return", "if-else-returns"]
+
+    def __init__(self, ch):
+        self.ch = ch
+        self.kinds_used = []
+
+    def program(self):
+        c = self.ch.choose
+        loop = ["while", "for"][c(2)]
+        g1 = self.GUARDS[c(len(self.GUARDS))]
+        g2 = self.GUARDS[c(len(self.GUARDS))]
+        loop_else = c(2)
+        after = self.AFTER[c(len(self.AFTER))]
+        self.kinds_used = [loop]
+        self.position = f"{loop}:{g1}:{g2}:{'else' if loop_else else 'noelse'}:{after}"
+        L = ["def f(x, y, n, c, v=0):", "    mark(1)"]
+        L.append("    while ext(1):" if loop == "while" else "    for i1 in range(n):")
+        L.append("        mark(3)")
+        k = 2
+        for j, g in enumerate((g1, g2)):
+            if g == "none":
+                continue
+            L.append(f"        if ext({k}):")
+            k += 1
+            L.append(f"            mark({10 + j})")
+            if g != "branch":
+                L.append(f"            {g if g != 'return v' else 'return v + ' + str(100 * (j + 1))}")
+            L.append(f"        v += {j + 1}")
+        if loop_else:
+            L += ["    else:", "        v += 7"]
+        if after.startswith("second-loop"):
+            t = "return v + 1000" if after.endswith("return") else "break"
+            L += [f"    while ext({k}):", "        mark(20)", f"        if ext({k + 1}):", "            mark(21)", f"            {t}", "        v += 10"]
+        elif after == "nested-if-return":
+            L += [f"    if ext({k}):", "        mark(20)", f"        if ext({k + 1}):", "            mark(21)", "            return v + 1000", "        v += 10"]
+        elif after == "if-return":
+            L += [f"    if ext({k}):", "        mark(20)", "        return v + 1000"]
+        else:
+            L += [f"    if ext({k}):", "        mark(20)", "        return v + 1000", "    else:", "        mark(22)", "        return v + 2000"]
+        L += ["    mark(9)", "    return v"]
+        return "\n".join(L) + "\n"
+
+
+# ---------------------------------------------------------------------------
 # S2-deadscope: a name that is bound only in dead code (after return / break / continue) is still a LOCAL name of the
 # function - reading it in live code raises UnboundLocalError, not NameError
 
